@@ -488,6 +488,9 @@ def normalise_dir(d):
         if n == "meta.json" and "meta" in c and isinstance(c["meta"], dict) and c["meta"].get("_type") == "NonTensorData":
             m = {k: v for k, v in c["meta"].items() if k not in ("_metadata", "_is_non_tensor")}
             out["files"][n] = {"meta": m}
+        elif n == "meta.json" and "meta" in c and isinstance(c["meta"], dict) and c["meta"].get("_type") == "NonTensorStack":
+            # the device of a NonTensorStack follows the tensordict it was last put in (None / cpu): not part of the property
+            out["files"][n] = {"meta": {k: v for k, v in c["meta"].items() if k != "device"}}
         elif n == "other.pickle" and "pickle" in c and isinstance(c["pickle"], dict):
             p = {k: v for k, v in c["pickle"].items() if k not in ("_metadata", "_is_non_tensor")}
             if p:
@@ -993,7 +996,7 @@ def orders_for(rng, n, quick, exhaustive_upto=5):
     if n <= exhaustive_upto and (not quick or n <= 4):
         return [list(p) for p in itertools.permutations(range(n))], True
     out = [list(range(n)), list(range(n - 1, -1, -1)), list(range(1, n)) + [0], [n - 1] + list(range(n - 1))]
-    for _ in range(4 if quick else 20):
+    for _ in range(3 if quick else 20):
         p = list(range(n))
         rng.shuffle(p)
         out.append(p)
@@ -1056,6 +1059,16 @@ def classify(case, label, detail):
             return "dtype-missing-from-string-table"
         if ft["nts_list_payload"]:
             return "non-tensor-stack-of-lists"
+    if label == "loaded-differs" and case.get("stream") == "resave":
+        # stale content of the directory the structure was saved over
+        if what == "members" and isinstance(d.get("loaded"), int) and d["loaded"] > d.get("original", 0):
+            first = node_at(case["first"], path)
+            if first is not None and first["k"] == "lazy" and len(first["members"]) == d["loaded"]:
+                return "stale-lazy-members"
+        if what == "payload":
+            first = node_at(case["first"], path)
+            if first is not None and first["k"] == "ntd" and payload_has(first["data"], "obj") and canon_payload(first["data"]) == d.get("loaded"):
+                return "stale-pickle"
     if label == "save-raises" and ft["set_payload"] and d.get("outcome") == "raise:TypeError":
         return "set-payload"
     if label == "threads-differ-from-sequential" and d.get("differs") == "outcome" and d.get("swallowed"):
@@ -1738,6 +1751,7 @@ def model_lines(model_q):
         elif kind == "grow":
             index.append((kind, case, o, len(lines)))
             lines.append(sx([Sym("grow"), t, [grow_op_sx(op) for op in case["ops"]]]))
+            lines.append(sx([Sym("grow-outcomes"), t, [grow_op_sx(op) for op in case["ops"]]]))
             dsx = dir_sx(o["dir"], [case["after"]]) if "files" in o.get("dir", {}) else None
             lines.append(sx([Sym("decode"), dsx]) if dsx is not None else sx([Sym("valid"), 0]))
     return lines, index
@@ -1847,8 +1861,11 @@ def compare_with_model(R, model_q):
                 df = dir_diff(md, o["dir"])
                 if df:
                     R.mismatch("grow:directory", case, {"path": df[0], "what": df[1], "disk": df[3]}, {"model": df[2]})
-            if isinstance(out[i + 1], list) and out[i + 1] and out[i + 1][0] in ("ok", "raised"):
-                loaded_obs_cmp(R, "grow:load", case, out[i + 1], o["loaded"])
+            mo = [res_of(x)[0] for x in out[i + 1]] if isinstance(out[i + 1], list) else out[i + 1]
+            if mo != o["outcomes"]:
+                R.mismatch("grow:outcomes", case, o["outcomes"], mo)
+            if isinstance(out[i + 2], list) and out[i + 2] and out[i + 2][0] in ("ok", "raised"):
+                loaded_obs_cmp(R, "grow:load", case, out[i + 2], o["loaded"])
 
 
 def strip_unknown(d):
@@ -1874,3 +1891,246 @@ def unflatten(files, dirs):
         parts = k.split("/")
         node("/".join(parts[:-1]))["files"][parts[-1]] = c
     return root
+
+
+# ====================================================================================================== main
+def hist_structure(R, desc, prefix=""):
+    ft = features(desc)
+    for k in sorted(ft["kinds"]):
+        R.count(prefix + "kind:" + k)
+    for k in sorted(ft["dtypes"]):
+        R.count(prefix + "dtype:" + k)
+    for k in sorted(ft["layouts"]):
+        R.count(prefix + "layout:" + k)
+    R.count(prefix + "depth:" + str(ft["depth"]))
+    R.count(prefix + "leaves:" + (str(ft["leaves"]) if ft["leaves"] < 6 else "6+"))
+    return ft
+
+
+def plan_runs(rng, desc, quick, budget):
+    """(num_threads, order, real_pool) for one structure: num_threads=1, every/some completion orders, the real pool"""
+    n = n_tasks(desc)
+    orders, exhaustive = orders_for(rng, n, quick and budget["n5"] <= 0)
+    if n == 5 and exhaustive:
+        budget["n5"] -= 1
+    runs = [(1, None, False)]
+    for i, o in enumerate(orders):
+        runs.append(((2, 4, 8)[i % 3], o, False))
+    for nt in (2, 4, 8):
+        runs.append((nt, None, True))
+    return runs, n, exhaustive
+
+
+CORPUS = os.path.join(os.path.dirname(os.path.dirname(os.path.abspath(__file__))), "corpus", PID)
+
+
+def load_corpus():
+    out = []
+    if os.path.isdir(CORPUS):
+        for f in sorted(os.listdir(CORPUS)):
+            if f.endswith(".json"):
+                try:
+                    out.append(json.load(open(os.path.join(CORPUS, f))))
+                except EXC:  # noqa: BLE001
+                    pass
+    return out
+
+
+def check_dtype_table(R):
+    """the model's _STRDTYPE2DTYPE is the code's (quantised dtypes aside: no tensor of them can be an entry here)"""
+    from tensordict.utils import _STRDTYPE2DTYPE
+    code = sorted(k for k in _STRDTYPE2DTYPE if not k.startswith("torch.q"))
+    model = R.model([sx([Sym("dtype-table")])])[0]
+    model = sorted(str(x) for x in model) if isinstance(model, list) else model
+    if code != model:
+        R.mismatch("dtype-table", {"api": "load_memmap", "desc": {"k": "td", "bs": [], "ents": []}}, code, model)
+
+
+def main(R):
+    torch.set_num_threads(1)
+    R.rule = ("structures: random trees (depth <= 3) of TensorDict nodes, lazy stacks (nested, heterogeneous members), two tensorclasses, "
+              "NonTensorData (str/int/bool/None/list/dict/opaque-object payloads), NonTensorStack, empty nodes; leaves of all 16 dtypes of "
+              "_STRDTYPE2DTYPE, rank 0..5, contiguous/transposed/strided/expanded/requires-grad/already-memory-mapped (no file, file elsewhere); "
+              "~30% carry one known-defect pattern (0-size leaf, reserved key, tuple/set payload, list-valued stack items, wide NonTensorData, "
+              "float8). Each is saved with memmap/memmap_/memmap_like/save sequentially, with num_threads=1, under every completion order "
+              "of the writer tasks for <= 5 tasks (else identity/reverse/rotations/random) via the permuting executor, and with the real pool "
+              "(2,4,8 threads). distinct = (structure, api, copy_existing); non-trivial = at least 2 nodes+leaves.")
+    R.assumptions = ["mmap coherence between mappings/processes and real thread preemption are the OS's: exercised (same process, fork, spawn, "
+                     "real ThreadPoolExecutor), not modelled",
+                     "byte-level reinterpretation of a file read with another dtype/length is not modelled (model answers 'unmodelled')",
+                     "leaf values are small integers (exact in every dtype); float8 leaves compare shapes only"]
+    R.trusted = ["harness/c10.py PermExecutor (stands in for concurrent.futures.ThreadPoolExecutor inside tensordict.base in this process only)",
+                 "torch.from_file / json / pickle used by the harness to read the directory back independently of tensordict"]
+    import time
+    t0 = time.time()
+    timing = R.extra.setdefault("stream_wall_s", {})
+
+    def lap(name):
+        nonlocal t0
+        timing[name] = round(time.time() - t0, 1)
+        t0 = time.time()
+    R.step_prove()
+    lap("prove")
+    ok = R.step_driver()
+    lap("driver")
+    rng = R.rng
+    quick = R.quick
+    model_q = []
+    if ok:
+        check_dtype_table(R)
+    # ---- corpus first
+    for c in load_corpus():
+        kind = c.get("stream", "save")
+        R.count("corpus:" + kind)
+        if kind == "save":
+            runs, n, _ = plan_runs(rng, c["desc"], quick, {"n5": 1})
+            save_case(R, dict(c, runs=runs), model_q)
+        elif kind == "resave":
+            resave_case(R, c, model_q)
+        elif kind == "grow":
+            grow_case(R, c, model_q)
+        elif kind == "live":
+            live_case(R, c)
+        R.case(("corpus", json.dumps(c, sort_keys=True)), nontrivial=True)
+    # ---- (1) save stream
+    n_struct = 100 if quick else 1500
+    budget = {"n5": 4 if quick else 10 ** 9}
+    apis = ["memmap", "memmap_", "memmap_like", "save"]
+    for i in range(n_struct):
+        desc = gen_structure(rng)
+        quirk = None
+        if rng.random() < 0.3:
+            quirk = rng.choice(QUIRKS)
+            if not inject(rng, desc, quirk):
+                quirk = None
+        ce = rng.random() < 0.5
+        if quirk is None and rng.random() < 0.25:
+            add_elsewhere(rng, desc)
+        api = apis[i % 4] if rng.random() < 0.7 else rng.choice(apis)
+        runs, n, exhaustive = plan_runs(rng, desc, quick, budget)
+        case = {"stream": "save", "desc": desc, "api": api, "copy_existing": ce, "quirk": quirk, "runs": runs}
+        ft = hist_structure(R, desc)
+        R.count("api:" + api)
+        R.count("quirk:" + (quirk or ("elsewhere" if ft["mm_elsewhere"] else "none")))
+        R.count("tasks:" + (str(n) if n < 8 else "8+"))
+        R.count("orders:" + ("all" if exhaustive else "sampled"), len(runs) - 4)
+        R.case(("save", json.dumps(desc, sort_keys=True), api, ce), nontrivial=ft["leaves"] + ft["nodes"] >= 2,
+               sample={k: v for k, v in case.items() if k != "runs"} if i % 40 == 7 else None)
+        save_case(R, case, model_q)
+    lap("save")
+    # ---- (2) resave over a directory with content
+    for i in range(50 if quick else 600):
+        d1, d2, kind = gen_resave(rng)
+        nt = rng.choice([0, 0, 2, 4])
+        n = n_tasks(d2)
+        order = None
+        if nt > 1:
+            order = list(range(n))
+            rng.shuffle(order)
+        case = {"stream": "resave", "first": d1, "desc": d2, "api": rng.choice(["memmap", "memmap_", "save"]), "num_threads": nt,
+                "order": order, "mutation": kind}
+        R.count("resave:" + kind)
+        R.case(("resave", json.dumps(d1, sort_keys=True), json.dumps(d2, sort_keys=True), case["api"], nt), nontrivial=True,
+               sample=case if i == 3 else None)
+        resave_case(R, case, model_q)
+    lap("resave")
+    # ---- (3) make_memmap* / refresh
+    cfg = {"max_depth": 2, "kinds": ["td", "ntd", "lazy", "tc", "nts"]}
+    for i in range(60 if quick else 800):
+        d = gen_td(rng, rng.choice(BATCHES), 0, cfg)
+        ops, after = gen_grow_ops(rng, d)
+        nt = rng.choice([0, 0, 2, 8])
+        case = {"stream": "grow", "desc": d, "ops": ops, "after": after, "api": "make_memmap", "num_threads": nt, "order": None}
+        for op in ops:
+            R.count("grow:" + op["op"] + (":existing-key" if op["exists"] else ""))
+            R.count("grow:new-intermediate-nodes:" + str(max(0, len(op["path"]) - 1)))
+        R.case(("grow", json.dumps(d, sort_keys=True), json.dumps(ops, sort_keys=True)), nontrivial=True, sample=case if i == 2 else None)
+        grow_case(R, case, model_q)
+    lap("grow")
+    # ---- (4) live view; a few child processes
+    n_live = 40 if quick else 400
+    children = {1: "fork", 5: "fork", 9: "fork", 13: "spawn"} if quick else {i: ("spawn" if i % 50 == 13 else "fork") for i in range(0, n_live, 5)}
+    for i in range(n_live):
+        desc = gen_structure(rng)
+        api = apis[i % 4]
+        nt = rng.choice([0, 2, 4])
+        case = {"stream": "live", "desc": desc, "api": api, "child": children.get(i) if api != "memmap_like" else None, "num_threads": nt, "order": None}
+        hist_structure(R, desc, "live:")
+        R.case(("live", json.dumps(desc, sort_keys=True), api, case["child"]), nontrivial=features(desc)["leaves"] >= 1,
+               sample=case if i == 13 else None)
+        live_case(R, case)
+    lap("live")
+    if ok:
+        compare_with_model(R, model_q)
+    lap("model")
+    R.extra["model_queries"] = len(model_q)
+    R.extra["not_modelled"] = ["mmap coherence between processes", "real thread preemption", "byte-level reinterpretation of files",
+                               "share_non_tensor=True (multiprocessing manager)", "nested (jagged) tensors"]
+
+
+# ====================================================================================================== replay
+class _PrintRun:
+    """same interface as core.Run for the pieces used by the streams; prints instead of recording"""
+    quick = True
+
+    def __init__(self):
+        self.traces = 0
+        import random
+        self.rng = random.Random(0)
+
+    def oracle_fail(self, label, case, detail, sig=None):
+        print("ORACLE FAILS:", label, json.dumps(sig, default=str))
+        print("   ", json.dumps(detail, default=str)[:1500])
+
+    def mismatch(self, label, case, impl, model):
+        print("MODEL/IMPLEMENTATION DIFFER:", label)
+        print("    implementation:", json.dumps(impl, default=str)[:1200])
+        print("    model:         ", json.dumps(model, default=str)[:1200])
+
+    def count(self, *a, **k):
+        pass
+
+    def case(self, *a, **k):
+        pass
+
+    def model(self, lines, shards=1):
+        from .core import run_model
+        return run_model(PID, lines, shards)
+
+
+def replay(body):
+    from .core import build_driver
+    torch.set_num_threads(1)
+    case = body["case"]
+    R = _PrintRun()
+    ok, _ = build_driver(PID)
+    mq = []
+    stream = case.get("stream") or ("resave" if "first" in case else "grow" if "ops" in case else "live" if "child" in case else "save")
+    print("stream:", stream, "| api:", case.get("api"), "| num_threads:", case.get("num_threads"), "| order:", case.get("order"))
+    print("structure:", json.dumps(case.get("desc"))[:3000])
+    if stream == "save":
+        nt, order = case.get("num_threads", 0), case.get("order")
+        runs = [(nt, order, bool(case.get("real_pool")))] if nt else []
+        ref, _, _ = full_obs(case["desc"], case["api"], 0, None, False, case.get("copy_existing", False))
+        print("implementation, sequential:", json.dumps({k: ref.get(k) for k in ("outcome", "exc", "loaded", "flags")}, default=str)[:2500])
+        print("directory:", json.dumps(ref.get("dir"), default=str)[:2500])
+        for r in runs:
+            o, _, _ = full_obs(case["desc"], case["api"], r[0], r[1], r[2], case.get("copy_existing", False))
+            print(f"implementation, num_threads={r[0]} order={r[1]} real_pool={r[2]}:",
+                  json.dumps({k: o.get(k) for k in ("outcome", "worker_errors", "tasks", "ran", "loaded")}, default=str)[:2500])
+        save_case(R, dict(case, runs=runs), mq)
+    elif stream == "resave":
+        resave_case(R, case, mq)
+    elif stream == "grow":
+        grow_case(R, case, mq)
+    elif stream == "live":
+        live_case(R, case)
+    if ok and mq:
+        lines, _ = model_lines(mq)
+        for l, r in zip(lines, R.model(lines)):
+            print("model <", l[:300])
+            print("model >", json.dumps(r)[:1500])
+        compare_with_model(R, mq)
+    print("expected (what an equal tensordict observes as):", json.dumps(expected(case["desc"]), default=str)[:2000])
+    print(json.dumps(body.get("detail"), default=str)[:1500])
+    return 0
